@@ -1,7 +1,7 @@
 #!/bin/sh
 # Runs every registered quick (or thorough) check on the current tree; prints exit code and wall time per check.
 tier="${1:-quick}"
-cd /verif || exit 2
+cd "$(dirname "$0")/.." || exit 2
 fail=0
 for id in $(python3 -c "import json; print(' '.join(c['property_id'] for c in json.load(open('MANIFEST.json'))['checks']))"); do
   s=$(date +%s)
